@@ -372,3 +372,107 @@ def writer_value(ctx, rule, kind, version, mark=False):
 
 def show(w):
     return L.render(w, S.NAMES)
+
+
+# ---------------------------------------------------------------- the json.dumps call of dump_grid
+
+DUMPS_NEUTRAL = ('indent', 'ensure_ascii', 'allow_nan', 'check_circular', 'skipkeys')
+
+
+def dumps_call(ctx, rule):
+    """dump_grid returns json.dumps(<grid object>) with options that keep key order and JSON syntax.
+
+    same      -> obligation; sort_keys / non-JSON separators / str()-repr() of the object -> VIOLATION;
+    any other shape (custom encoder, another serializer) -> ANALYSIS-ERROR."""
+    m = ctx.model
+    try:
+        dg = m.func('jsondumper', 'dump_grid')
+    except AnalysisError as e:
+        ctx.error(rule, str(e))
+        return
+    con = '%s::dump_grid' % FD
+    rets = [n for n in walk_no_nested(dg) if isinstance(n, ast.Return)]
+    if len(rets) != 1 or rets[0].value is None:
+        ctx.error(rule, 'dump_grid: %d return statements' % len(rets))
+        return
+    val = rets[0].value
+    local = {}
+    for st in body_wo_doc(dg):
+        if isinstance(st, ast.Assign) and len(st.targets) == 1 and isinstance(st.targets[0], ast.Name):
+            local[st.targets[0].id] = st.value
+    seen = 0
+    while isinstance(val, ast.Name) and val.id in local and seen < 4:
+        val = local[val.id]
+        seen += 1
+    where = '%s:%d' % (FD, val.lineno)
+    if isinstance(val, ast.Call) and norm(val.func) in ('str', 'repr', 'six.text_type'):
+        ctx.violation(rule, con, norm(val), 'dump(g, MODE_JSON) is the Python repr of the grid object (single quotes, None/True): '
+                      'json.loads rejects it', 'the document text is not produced by a JSON serializer', file=FD,
+                      line=val.lineno, engine='E9')
+        return
+    if not (isinstance(val, ast.Call) and norm(val.func) == 'json.dumps' and len(val.args) == 1):
+        ctx.error(rule, 'dump_grid returns `%s`, not a json.dumps call; cannot decide' % norm(val)[:80])
+        return
+    arg = val.args[0]
+    while isinstance(arg, ast.Name) and arg.id in local:
+        arg = local[arg.id]
+    if not (isinstance(arg, ast.Call) and norm(arg.func) == '_dump_grid_to_json' and len(arg.args) >= 1
+            and norm(arg.args[0]) == dg.args.args[0].arg):
+        ctx.error(rule, 'dump_grid serializes `%s`, not _dump_grid_to_json(grid); cannot decide' % norm(arg)[:80])
+        return
+    ok = True
+    for k in val.keywords:
+        v = m.fold('jsondumper', k.value) if k.arg else None
+        if k.arg == 'sort_keys':
+            if isinstance(v, Opaque):
+                ctx.error(rule, 'json.dumps(sort_keys=%s): not a constant' % norm(k.value))
+                ok = False
+            elif v:
+                ok = False
+                ctx.violation(rule, con, norm(val),
+                              "grid metadata written in the order site, dis: the document has the keys sorted (dis, site), "
+                              "and any reader rebuilds the metadata (and column metadata) in alphabetical order",
+                              'json.dumps(sort_keys=True): key order is the only carrier of metadata order in JSON', file=FD,
+                              line=val.lineno, engine='E9')
+        elif k.arg == 'separators':
+            good = isinstance(v, (tuple, list)) and len(v) == 2 and all(isinstance(x, str) for x in v) \
+                and v[0].strip() == ',' and v[1].strip() == ':'
+            if isinstance(v, Opaque):
+                ctx.error(rule, 'json.dumps(separators=%s): not a constant' % norm(k.value))
+                ok = False
+            elif not good:
+                ok = False
+                ctx.violation(rule, con, norm(val), 'every dumped document uses %r as separators: not JSON' % (v,),
+                              'json.dumps separators are not the JSON ones', file=FD, line=val.lineno, engine='E9')
+        elif k.arg in DUMPS_NEUTRAL:
+            continue
+        else:
+            ctx.error(rule, 'json.dumps option `%s` is not modelled; cannot decide' % norm(k))
+            ok = False
+    if ok:
+        ctx.ob(rule, 'the document text is json.dumps of the grid object; no option reorders keys or changes the syntax '
+                     '(options: %s)' % ([k.arg for k in val.keywords] or 'none'), True, where)
+
+
+def loads_calls(ctx, rule, floor=3):
+    """every json.loads call of the readers keeps the document's key order and plain dict/list/str decoding:
+    no object_hook / object_pairs_hook / parse_* option.  Unknown option -> ANALYSIS-ERROR."""
+    m = ctx.model
+    n = 0
+    for modname, f in (('jsonparser', FJ), ('parser', 'hszinc/parser.py')):
+        for node in ast.walk(m.mod(modname).tree):
+            if not (isinstance(node, ast.Call) and norm(node.func) in ('json.loads', 'json.load')):
+                continue
+            n += 1
+            bad = [k for k in node.keywords if k.arg in ('object_hook', 'object_pairs_hook', 'parse_float', 'parse_int',
+                                                            'parse_constant', 'cls')]
+            other = [k for k in node.keywords if k not in bad and k.arg not in ('strict',)]
+            if other:
+                ctx.error(rule, '%s: json.loads option `%s` not modelled' % (f, norm(other[0])))
+            elif bad:
+                ctx.error(rule, '%s:%d json.loads with a decoding hook (`%s`): the decoded document is no longer plain '
+                                'dict/list/str in document order; cannot decide' % (f, node.lineno, norm(bad[0])))
+            else:
+                ctx.ob(rule, 'json.loads without decoding hooks: objects become dicts in document order', True,
+                       '%s:%d' % (f, node.lineno))
+    ctx.floor('json.loads call sites', n, floor)
